@@ -48,7 +48,7 @@ Definition halscp_fx (T : tensor Q) (w : list Q) (Fs : list qmat) (nn : list nat
   let T' := t2fx T in let sps' := map o2fx sps in
   let r := non_negative_parafac_hals Fxops fxnrm2 (fun _ => cp_hals_utm Fxops T') (fun _ => cp_hals_utu Fxops) (fun _ M => M)
              (fun _ => cp_hals_inner Fxops T' sps' (q2fx tol)) (fun _ _ => false) nn sps' nm modes n
-             (initialize_cp_user_norm Fxops fxnrm2 (map q2fx w) (map m2fx Fs) nm) in
+             (initialize_cp_user_hals Fxops fxnrm2 (map q2fx w) (map m2fx Fs) modes nm) in
   (map fx2q (fst r), map m2q (snd r)).
 (* complete non_negative_tucker_hals run with the FISTA core (one step size per run: n <= 1) *)
 Definition tkhals_fx (T core : tensor Q) (Fs : list qmat) (sps : list (option Q)) (csp : Q) (nm : bool) (modes : list nat)
@@ -111,6 +111,27 @@ Definition tkaset_fx (T core : tensor Q) (Fs : list qmat) (sps : list (option Q)
              (t2fx core, map m2fx Fs) in
   (map fx2q (data (fst r)), map m2q (snd r)).
 
+(* matrix right-hand side: one elimination per column; a singular system gives zeros (the generator keeps rho > 0: never singular) *)
+Definition gsolve_mat {F} (Op : fops F) (A B : list (list F)) : list (list F) :=
+  transp Op (map (fun j => match gsolve Op A (col Op j B) with Some x => x | None => map (fun _ => f0 Op) A end) (seq 0 (ncols B))).
+(* complete constrained_parafac(non_negative = the modes nn) run from user factors (unit weights): n outer sweeps, `inner` ADMM iterations
+   per mode (tol_inner = 0), dual variables start at zero *)
+Definition ccp_fx (T : tensor Q) (Fs : list qmat) (nn modes : list nat) (n inner : nat) : list qmat :=
+  let T' := t2fx T in let Fs' := map m2fx Fs in
+  let R := ncols (hd [] Fs') in
+  let Ds := map (fun M => map (map (fun _ => 0%Z)) M) Fs' in
+  let r := constrained_parafac Fxops nn (fun _ M => M) (fun _ => ccp_split Fxops (gsolve_mat Fxops) T' R) (fun _ _ _ => inner)
+             (fun _ _ => false) modes n (Fs', Ds) in
+  map m2q (fst r).
+(* one PARAFAC2 outer iteration on the projected tensor T' (projections = SVD oracle, recorded): weights into factor 1, inner HALS-CP with
+   n_iter_parafac sweeps from the user start, no line search, normalisation of the start and of the iterate when requested; every mode declared (no LAPACK solve is reached) *)
+Definition p2iter_fx (T : tensor Q) (w : list Q) (Fs : list qmat) (nip : nat) (nm : bool) (tol : Q) : list Q * list qmat :=
+  let T' := t2fx T in
+  let r := parafac2 Fxops fxnrm2 (fun _ _ => cp_hals_utm Fxops T') (fun _ _ => cp_hals_utu Fxops) (fun _ M => M)
+             (fun _ _ => cp_hals_inner Fxops T' (repeat None 3) (q2fx tol)) (fun _ _ _ => false) [0; 1; 2]%nat nip (fun _ => None) (fun _ _ => false)
+             nm (fun _ _ => false) 1 (map q2fx w, map m2fx Fs) in
+  (map fx2q (fst r), map m2q (snd r)).
+
 Definition pair_close (a b : list Q * list qmat) : bool :=
   q_list_close (1 # 100000000000000000000) (1 # 1000000000000000) (fst a) (fst b) &&
   qmats_close (1 # 100000000000000000000) (1 # 1000000000000000) (snd a) (snd b).
@@ -139,6 +160,19 @@ Inductive op :=
 | OTkAset (T core : tensor Q) (Fs : list qmat) (sps : list (option Q)) (nm : bool) (modes : list nat) (n : nat) (tol : Q)
 (* active_set_nnls(Utm, UtU, x=x0, n_iter_max=n) against the statement-by-statement transcription, exact rationals *)
 | OAset (Utm : list Q) (UtU : qmat) (x0 : list Q) (n : nat) (tol : Q)
+(* initialize_cp(init='svd'|'random', non_negative=True, normalize_factors=nm) on the recorded svd_interface / random_cp answers *)
+| OInitCp (Rk : nat) (Us : list qmat) (S0 : list Q) (nm : bool)
+(* initialize_tucker(non_negative=True): user (core, factors) - possibly signed - or the recorded SVD factors with the core recomputed by the model *)
+| OInitTk (core : tensor Q) (raw : list qmat)
+| OInitTkSvd (T : tensor Q) (ranks : list nat) (Us : list qmat)
+(* initialize_constrained_parafac(non_negative = modes nn) on the recorded (signed) svd_interface answers *)
+| OInitCcp (nn : list nat) (Us : list qmat) (S0 : list Q)
+(* parafac2(n_iter_max=0, nn_modes=nn, normalize_factors=nm) on the recorded raw initial factors (A, B, C) *)
+| OInitP2 (nn : list nat) (raw : list qmat) (nm : bool)
+(* constrained_parafac(non_negative=nn, init=(ones, Fs), n_iter_max=n, n_iter_max_inner=inner, tol_outer=0, tol_inner=0, fixed_modes) *)
+| OCcp (T : tensor Q) (Fs : list qmat) (nn modes : list nat) (n inner : nat)
+(* parafac2(slices, init=(w, Fs, projections), n_iter_max=1, nn_modes='all', linesearch=False, n_iter_parafac=nip): T = recorded projected tensor *)
+| OP2Iter (T : tensor Q) (w : list Q) (Fs : list qmat) (nip : nat) (nm : bool) (tol : Q)
 (* _BroThesisLineSearch.line_step extrapolation + clipping *)
 | OLine (nn : list nat) (jump : Q) (last cur : list qmat).
 
@@ -193,6 +227,18 @@ Definition run (o : op) : out :=
       if pair_close a b then OutMats (fst a) (snd a) else OutSkip
   | OAset Utm UtU x0 n tol =>
       match active_set_nnls Qops (gsolve Qops) Utm UtU tol x0 n with Some x => OutMats x [] | None => OutMats [] [[[]]] end
+  | OInitCp Rk Us S0 nm => let r := initialize_cp_nn_svd Qops qnrm2 Rk Us S0 nm in OutMats (fst r) (snd r)
+  | OInitTk core raw => let r := initialize_tucker_nn Qops core raw in OutMats (data (fst r)) (snd r)
+  | OInitTkSvd T ranks Us =>
+      let r := initialize_tucker_nn Qops (mk ranks (tk_mu_numc Qops T (mk ranks [], Us))) Us in OutMats (data (fst r)) (snd r)
+  | OInitCcp nn Us S0 => OutMats [] (initialize_ccp Qops nn (fun _ M => M) (map_first (fun U => mul_cols Qops U S0) Us))
+  | OInitP2 nn raw nm =>
+      let r := cp_fin Qops qnrm2 nm (repeat 1%Q (ncols (hd [] raw)), initialize_parafac2_nn Qops nn raw) in OutMats (fst r) (snd r)
+  | OCcp T Fs nn modes n inner => OutMats [] (ccp_fx T Fs nn modes n inner)
+  | OP2Iter T w Fs nip nm tol =>
+      let a := p2iter_fx T w Fs nip nm (tol * (999999 # 1000000)) in
+      let b := p2iter_fx T w Fs nip nm (tol * (1000001 # 1000000)) in
+      if pair_close a b then OutMats (fst a) (snd a) else OutSkip
   | OLine nn jump last cur => OutMats [] (line_step Qops nn jump last cur)
   end.
 
